@@ -12,6 +12,7 @@ ReqThree == [w \in W3 |-> IF w = "w1" THEN {"f1", "f2"} ELSE IF w = "w2" THEN {"
 DirThree == [w \in W3 |-> IF w = "w1" THEN "d1" ELSE IF w = "w2" THEN "d2" ELSE "d3"]
 StyleT1 == [w \in W1 |-> "transfer"]
 StyleA1 == [w \in W1 |-> "add"]
+StyleAV1 == [w \in W1 |-> "addv"]
 StyleT2 == [w \in W2 |-> "transfer"]
 StyleT3 == [w \in W3 |-> "transfer"]
 =============================================================================
